@@ -346,7 +346,10 @@ static txrec *on_tx_event2(runctx *x, int hk, htp_tx_t *tx, int side, int rank, 
              hx_hook_name[hk], x->failed[x->cur_dir - 1] == HTP_STREAM_STOP ? "STOP" : "ERROR");
     }
     CHECK(x);
-    if (tx == NULL) { viol(x, "C01", "null_tx_in_callback", "%s", hx_hook_name[hk]); return NULL; }
+    /* A raw-data receiver can fire with d->tx == NULL after a response without request re-pointed the
+     * request side (observed on the pinned tree; Suricata guards against it).  The library itself does
+     * not dereference it, so this is outside what C01 states: counted, not judged (DESIGN.md section 7). */
+    if (tx == NULL) { x->r->st.null_tx_callbacks++; return NULL; }
     txrec *t = tx_find(x, tx);
     if (t == NULL) {
         /* a pointer we do not know: legitimate only for the first callback of a new transaction */
